@@ -41,6 +41,11 @@ class Gen:
     def val(self) -> float:
         return self.rng.choice(VALS)
 
+    def cval(self) -> float:
+        """A value for the context / payload channel: now and then falsy-but-not-None (0.0), the class of value that
+        ``if value:`` / ``value or default`` shortcuts silently mistake for "absent"."""
+        return 0.0 if self.rng.random() < 0.07 else self.rng.choice(VALS)
+
     def fresh(self, prefix: str) -> str:
         self._n += 1
         return f"{prefix}{self._n}"
@@ -130,14 +135,14 @@ class Gen:
             data: Any = rm.NODATA
             cur = "NoData"
         elif r < 0.9:
-            data = self.val()
+            data = self.cval()
             cur = "Float"
         else:
-            data = [self.val() for _ in range(rng.randint(0, 3))]
+            data = [self.cval() for _ in range(rng.randint(0, 3))]
             cur = "Coll"
         for k in KEY_ALPHABET:
             if self.chance(0.12):
-                ctx[k] = self.val()
+                ctx[k] = self.cval()
                 keys.add(k)
         if self.chance(0.3):
             lk = rng.choice(["seq", "t_values", "a_values"])
@@ -176,16 +181,16 @@ class Gen:
                 if r < 0.35:
                     node.setdefault("parameters", {})[name] = self.val()
                     if self.chance(0.25):  # same name also in context on purpose: config must win
-                        ctx.setdefault(name, self.val())
+                        ctx.setdefault(name, self.cval())
                         keys.add(name)
                 elif r < 0.55:
-                    ctx.setdefault(name, self.val())
+                    ctx.setdefault(name, self.cval())
                     keys.add(name)
                 elif r < 0.70 and cur == "Float":
                     prod = rng.choice(["VValueProbe", "VScaledProbe", "rename"])
                     if prod == "rename":
                         tmp = self.fresh("tmp")
-                        ctx[tmp] = self.val()
+                        ctx[tmp] = self.cval()
                         pre.append({"processor": f"rename:{tmp}:{name}"})
                     else:
                         pn = {"processor": prod, "context_key": name}
